@@ -996,6 +996,8 @@ def sink_attribute_targets(fn) -> int:
                             touched = True
                         if isinstance(x, ast.Call) and isinstance(x.func, ast.Attribute) and isinstance(x.func.value, ast.Name) and x.func.value.id == root:
                             touched = True  # a method of the same object may look at the attribute
+                        if isinstance(x, ast.Name) and x.id == root and isinstance(x.ctx, (ast.Store, ast.Del)):
+                            touched = True  # the object that gets the attribute is itself (re)bound in between
                 # only straight-line building code in between: nothing that can leave early on purpose (validate-then-publish must stay as it is)
                 for b in between[1:]:
                     if not isinstance(b, (ast.Assign, ast.AugAssign, ast.AnnAssign, ast.Expr)) or any(isinstance(x, (ast.Raise, ast.Return, ast.Yield, ast.YieldFrom, ast.Await)) for x in ast.walk(b)):
